@@ -6,7 +6,7 @@ THEOREMS = ["C15_holds", "C15_only_at_commit", "C15_not_before_applying_height",
 
 
 def run(ctx):
-    common.app_check(ctx, "C15", "theories/Props/C15.v", THEOREMS, codes=[5, 6, 11], pred="P_C15",
+    common.app_check(ctx, "C15", "theories/Props/C15.v", THEOREMS, codes=[5, 6, 11], pred="P_C15", profile="corpus noise judge",
                      extra_assume=["option documents reach the model parsed (the harness renders the JSON it submits from the same record); that submission-time parsing equals apply-time parsing is enforced by fix dc7d075",
                                    "'the power they had then' holds up to slashing: evidence shrinks a recorded voter's weight (C14); p_total = sum of voter powers needs slash ratio <= 100 (InvGov.prop_punish_total_refuted)",
                                    "two proposals applied in one block both merge against the old parameters and the later one wins wholesale (InvGov.apply_two_lost_update): documented peculiarity, not part of the property",
